@@ -371,7 +371,12 @@ namespace BitSerializer::Convert::Detail
 			if (utc.Year >= 10000) {
 				*pos++ = '+';
 			}
-			const size_t outSize = snprintf(pos, endPos - pos, "%04" PRId64 "-%02d-%02dT%02d:%02d:%02d", utc.Year, utc.Month, utc.Day, utc.Hour, utc.Min, utc.Sec);
+			else if (utc.Year < 0) {
+				// The sign must not be counted by the field width: years -1..-999 are printed with four digits as well
+				*pos++ = '-';
+			}
+			const uint64_t absYear = utc.Year < 0 ? 0u - static_cast<uint64_t>(utc.Year) : static_cast<uint64_t>(utc.Year);
+			const size_t outSize = snprintf(pos, endPos - pos, "%04" PRIu64 "-%02d-%02dT%02d:%02d:%02d", absYear, utc.Month, utc.Day, utc.Hour, utc.Min, utc.Sec);
 			if (outSize > 0)
 			{
 				pos += outSize;
